@@ -9,7 +9,9 @@
 //!                 It also emits Coq cases for C20/Corr.v: hash-map entry lists observed through the
 //!                 public iterators (tree class frequencies, naive-Bayes classes, hierarchical clusters,
 //!                 label sets), k-means task schedules observed through a spying distance function,
-//!                 and the default-seed table of the translator.
+//!                 the default-seed table of the translator, and the `vocabulary()` orders / transformed
+//!                 rows of repeated CountVectorizer fits (max_features cuts through document-frequency ties,
+//!                 document-frequency windows, stop words) for the enumeration-parametrised model.
 //! `c20 child ...` runs every scenario once and prints one digest line per component.
 use linfa::dataset::Labels;
 use linfa::prelude::*;
@@ -119,6 +121,16 @@ fn jopt<T: std::fmt::Debug>(o: &Option<T>) -> String {
 }
 fn c(name: &str, text: String) -> (String, String) {
     (name.to_string(), text)
+}
+/// one component per estimator of a multi-estimator scenario: an error or a panic of one estimator becomes
+/// the (compared) content of its own component and does not hide the estimators that follow
+fn part<G: FnOnce() -> Result<String, String>>(out: &mut Comps, name: &str, f: G) {
+    let t = match guarded(std::panic::AssertUnwindSafe(f)) {
+        Ok(Ok(t)) => t,
+        Ok(Err(e)) => format!("ERROR: {}", e),
+        Err(p) => format!("PANIC: {}", p),
+    };
+    out.push(c(name, t));
 }
 
 // ---------------------------------------------------------------- data
@@ -393,6 +405,35 @@ fn kmeans_scenarios(r: &mut Sm64, thorough: bool, v: &mut Vec<Scn>) {
         });
         v.push(Scn { fam: "kmeans", name: format!("kmeans/lattice/{}", i), tags: vec!["kmeans".into(), "lattice".into()], desc, nontrivial: true, f });
     }
+    // (c) row counts around the places where a chunked parallel reduction would start to split its input
+    //     (4096 / 8192 rows), few features and clusters, a single restart: cheap, every pool size sees them
+    let mut ns: Vec<usize> = vec![4097, 8192, 8193 + r.below(200) as usize, 12289 + r.below(4000) as usize];
+    if thorough { ns.extend([4096, 5000 + r.below(3000) as usize, 16385, 30000 + r.below(10000) as usize]); }
+    for (bi, n) in ns.into_iter().enumerate() {
+        let d = 2 + r.below(2) as usize;
+        let k = 2 + r.below(3) as usize;
+        let dseed = r.next();
+        let x = Arc::new(mat(&blobs(&mut Sm64::new(dseed), n, d, k + 1, 3.0)));
+        let seed = r.below(1000);
+        let default_params = bi % 2 == 0;
+        let plus = bi % 4 < 2;
+        let desc = format!(
+            "{{\"estimator\": \"KMeans\", \"data\": \"blobs(Sm64::new({}), n={}, d={}, centres={}, spread=3)\", \"k\": {}, \"init\": {}, \"rng\": {}, \"n_runs\": 1, \"max_n_iterations\": 12, \"tolerance\": 1e-6}}",
+            dseed, n, d, k + 1, k, jstr(if plus { "KMeansPlusPlus" } else { "Random" }), jstr(&if default_params { "default parameter set".to_string() } else { format!("Xoshiro256Plus::seed_from_u64({})", seed) })
+        );
+        let f: Run = Box::new(move || {
+            let ds = DatasetBase::from((*x).clone());
+            let init = if plus { KMeansInit::KMeansPlusPlus } else { KMeansInit::Random };
+            let m = if default_params {
+                KMeans::params(k).init_method(init).n_runs(1).max_n_iterations(12).tolerance(1e-6).fit(&ds).map_err(es)?
+            } else {
+                KMeans::params_with_rng(k, Xoshiro256Plus::seed_from_u64(seed)).init_method(init).n_runs(1).max_n_iterations(12).tolerance(1e-6).fit(&ds).map_err(es)?
+            };
+            let q = x.slice(ndarray::s![..x.nrows().min(6000), ..]).to_owned();
+            Ok(kmeans_comps(&m, &q))
+        });
+        v.push(Scn { fam: "kmeans", name: format!("kmeans/boundary/{}", bi), tags: vec!["kmeans".into(), "large".into(), "rows_over_4096".into()], desc, nontrivial: true, f });
+    }
 }
 
 fn gmm_scenarios(r: &mut Sm64, thorough: bool, v: &mut Vec<Scn>) {
@@ -418,6 +459,39 @@ fn gmm_scenarios(r: &mut Sm64, thorough: bool, v: &mut Vec<Scn>) {
             Ok(vec![c("model", jcanon(&m)), c("predict", us(m.predict(&*x).iter()))])
         });
         v.push(Scn { fam: "gmm", name: format!("gmm/{}", i), tags: vec!["gmm".into()], desc, nontrivial: true, f });
+    }
+    // non-default parameters: regularisation, tolerance, three restarts, explicit seeds; and data with more than
+    // 8192 rows (the default initialisation runs k-means on them)
+    let nvar = if thorough { 12 } else { 5 };
+    for i in 0..nvar {
+        let big = i == 0 || (thorough && i == 1);
+        let (n, d, k) = if big { (8200 + r.below(3000) as usize, 2, 2) } else { (300 + r.below(900) as usize, 2 + r.below(3) as usize, 2 + r.below(3) as usize) };
+        let dseed = r.next();
+        let x = Arc::new(mat(&blobs(&mut Sm64::new(dseed), n, d, k, 1.2)));
+        let seed = r.below(1000);
+        let reg = *r.pick(&[1e-6, 1e-4, 1e-2]);
+        let tol = *r.pick(&[1e-3, 1e-4]);
+        let nruns = if big { 1 } else { 1 + r.below(3) };
+        let random_init = !big && i % 2 == 1;
+        let default_params = i % 3 == 2;
+        let desc = format!(
+            "{{\"estimator\": \"GaussianMixtureModel\", \"data\": \"blobs(Sm64::new({}), n={}, d={}, centres={}, spread=1.2)\", \"k\": {}, \"init\": {}, \"rng\": {}, \"n_runs\": {}, \"reg_covariance\": {:e}, \"tolerance\": {:e}, \"max_n_iterations\": 200}}",
+            dseed, n, d, k, k, jstr(if random_init { "Random" } else { "KMeans" }), jstr(&if default_params { "default parameter set".to_string() } else { format!("Xoshiro256Plus::seed_from_u64({})", seed) }), nruns, reg, tol
+        );
+        let f: Run = Box::new(move || {
+            let ds = DatasetBase::from((*x).clone());
+            let im = if random_init { GmmInitMethod::Random } else { GmmInitMethod::KMeans };
+            let m = if default_params {
+                GaussianMixtureModel::params(k).init_method(im).n_runs(nruns).reg_covariance(reg).tolerance(tol).max_n_iterations(200).fit(&ds).map_err(es)?
+            } else {
+                GaussianMixtureModel::params_with_rng(k, Xoshiro256Plus::seed_from_u64(seed)).init_method(im).n_runs(nruns).reg_covariance(reg).tolerance(tol).max_n_iterations(200).fit(&ds).map_err(es)?
+            };
+            let q = x.slice(ndarray::s![..x.nrows().min(3000), ..]).to_owned();
+            Ok(vec![c("model", jcanon(&m)), c("predict", us(m.predict(&q).iter()))])
+        });
+        let mut tags: Vec<String> = vec!["gmm".into(), "gmm_non_default".into()];
+        if big { tags.push("rows_over_4096".into()); }
+        v.push(Scn { fam: "gmm", name: format!("gmm/variant/{}", i), tags, desc, nontrivial: true, f });
     }
 }
 
@@ -535,6 +609,19 @@ fn classification_scenarios(r: &mut Sm64, thorough: bool, v: &mut Vec<Scn>) {
                 p.fit_with(Some(m), &b2).map_err(es)?
             };
             out.push(c("ftrl", format!("{}|{}", jcanon(&m), m.predict(&*x).iter().map(|p| format!("{:08x}", (**p).to_bits())).collect::<Vec<_>>().join(","))));
+            // non-default FTRL parameters, three batches, always an explicit generator
+            part(&mut out, "ftrl_non_default", || {
+                let p = Ftrl::<f64>::params_with_rng(Xoshiro256Plus::seed_from_u64(seed ^ 0x5a)).alpha(0.05).beta(0.5).l1_ratio(0.3).l2_ratio(0.7);
+                let third = x.nrows() / 3;
+                let mut m = None;
+                for b in 0..3 {
+                    let (lo, hi) = (b * third, if b == 2 { x.nrows() } else { (b + 1) * third });
+                    let batch = Dataset::new(x.slice(ndarray::s![lo..hi, ..]).to_owned(), Array1::from(yb[lo..hi].to_vec()));
+                    m = Some(p.fit_with(m, &batch).map_err(es)?);
+                }
+                let m = m.unwrap();
+                Ok(format!("{}|{}", jcanon(&m), m.predict(&*x).iter().map(|p| format!("{:08x}", (**p).to_bits())).collect::<Vec<_>>().join(",")))
+            });
             Ok(out)
         });
         v.push(Scn { fam: "classification", name: format!("classification/{}", i), tags: vec!["classification".into()], desc, nontrivial: true, f });
@@ -554,37 +641,95 @@ fn decomposition_scenarios(r: &mut Sm64, thorough: bool, v: &mut Vec<Scn>) {
         let default_params = i % 2 == 0;
         let k = 1 + r.below(3) as usize;
         let whiten = r.chance(0.5);
+        let k2 = 1 + r.below(p as u64 - 1) as usize;
+        let td = 1 + r.below(p as u64 - 1) as usize;
         let desc = format!(
-            "{{\"estimator\": \"Pca/GaussianRandomProjection/SparseRandomProjection/DiffusionMap/FastIca(random_state)\", \"data\": \"blobs(Sm64::new({}), n={}, p={})\", \"embedding_size\": {}, \"whiten\": {}, \"projection_rng\": {}, \"ica_random_state\": {}}}",
-            dseed, n, p, k, whiten, jstr(&if default_params { "default parameter set".to_string() } else { format!("Xoshiro256Plus::seed_from_u64({})", seed) }), seed
+            "{{\"estimator\": \"Pca/GaussianRandomProjection/SparseRandomProjection/DiffusionMap/FastIca(random_state)\", \"data\": \"blobs(Sm64::new({}), n={}, p={})\", \"embedding_size\": {}, \"whiten\": {}, \"second_pca\": \"embedding_size {} with the other whitening\", \"projection_target_dim\": {}, \"projection_rng\": {}, \"ica_random_state\": {}}}",
+            dseed, n, p, k, whiten, k2, td, jstr(&if default_params { "default parameter set".to_string() } else { format!("Xoshiro256Plus::seed_from_u64({})", seed) }), seed
         );
         let f: Run = Box::new(move || {
             let mut out = vec![];
             let ds = DatasetBase::from((*x).clone());
-            let m = Pca::params(k).whiten(whiten).fit(&ds).map_err(es)?;
-            out.push(c("pca", format!("{}|{}", jcanon(&m), a2(&m.predict(&*x)))));
-            let td = 3;
+            part(&mut out, "pca", || {
+                let m = Pca::params(k).whiten(whiten).fit(&ds).map_err(es)?;
+                Ok(format!("{}|{}", jcanon(&m), a2(&m.predict(&*x))))
+            });
+            part(&mut out, "pca_other_whitening", || {
+                let m = Pca::params(k2).whiten(!whiten).fit(&ds).map_err(es)?;
+                Ok(format!("{}|{}|{}", jcanon(&m), a2(&m.predict(&*x)), a1(&m.explained_variance_ratio())))
+            });
             if default_params {
-                let g = GaussianRandomProjection::<f64>::params().target_dim(td).fit(&ds).map_err(es)?;
-                out.push(c("gaussian_projection", a2(&g.transform(&*x))));
-                let s = SparseRandomProjection::<f64>::params().target_dim(td).fit(&ds).map_err(es)?;
-                out.push(c("sparse_projection", a2(&s.transform(&*x))));
+                part(&mut out, "gaussian_projection", || Ok(a2(&GaussianRandomProjection::<f64>::params().target_dim(td).fit(&ds).map_err(es)?.transform(&*x))));
+                part(&mut out, "sparse_projection", || Ok(a2(&SparseRandomProjection::<f64>::params().target_dim(td).fit(&ds).map_err(es)?.transform(&*x))));
             } else {
-                let g = GaussianRandomProjection::<f64>::params_with_rng(Xoshiro256Plus::seed_from_u64(seed)).target_dim(td).fit(&ds).map_err(es)?;
-                out.push(c("gaussian_projection", a2(&g.transform(&*x))));
-                let s = SparseRandomProjection::<f64>::params_with_rng(Xoshiro256Plus::seed_from_u64(seed)).target_dim(td).fit(&ds).map_err(es)?;
-                out.push(c("sparse_projection", a2(&s.transform(&*x))));
+                part(&mut out, "gaussian_projection", || Ok(a2(&GaussianRandomProjection::<f64>::params_with_rng(Xoshiro256Plus::seed_from_u64(seed)).target_dim(td).fit(&ds).map_err(es)?.transform(&*x))));
+                part(&mut out, "sparse_projection", || Ok(a2(&SparseRandomProjection::<f64>::params_with_rng(Xoshiro256Plus::seed_from_u64(seed)).target_dim(td).fit(&ds).map_err(es)?.transform(&*x))));
             }
-            let kernel = Kernel::<f64>::params().kind(KernelType::Sparse(6)).method(KernelMethod::Gaussian(3.0)).transform(x.view());
-            let dm = DiffusionMap::<f64>::params(2).steps(1).transform(&kernel).map_err(es)?;
-            out.push(c("diffusion_map", format!("{}|{}", a2(dm.embedding()), a1(dm.eigvals()))));
-            let xi = x.slice(ndarray::s![.., ..4]).to_owned();
-            let ica = FastIca::<f64>::params().ncomponents(2).gfunc(GFunc::Logcosh(1.0)).max_iter(60).random_state(seed as usize).fit(&DatasetBase::from(xi.clone())).map_err(es)?;
-            out.push(c("fast_ica", format!("{}|{}", jcanon(&ica), a2(&ica.predict(&xi)))));
+            // the target dimension derived from eps (Johnson-Lindenstrauss bound, 83 for 30 samples and eps = 0.9) on a
+            // wide matrix built from the data; Gaussian and sparse projection, explicit generators
+            let (xn, xp) = (x.nrows(), x.ncols());
+            let wide = Array2::from_shape_fn((30, 160), |(i, j)| x[[i % xn, j % xp]] * (1 + (i * j) % 7) as f64);
+            let dw = DatasetBase::from(wide.clone());
+            part(&mut out, "gaussian_projection_eps", || Ok(a2(&GaussianRandomProjection::<f64>::params_with_rng(Xoshiro256Plus::seed_from_u64(seed + 1)).eps(0.9).fit(&dw).map_err(es)?.transform(&wide))));
+            part(&mut out, "sparse_projection_eps", || Ok(a2(&SparseRandomProjection::<f64>::params_with_rng(Xoshiro256Plus::seed_from_u64(seed + 2)).eps(0.9).fit(&dw).map_err(es)?.transform(&wide))));
+            part(&mut out, "diffusion_map", || {
+                let kernel = Kernel::<f64>::params().kind(KernelType::Sparse(6)).method(KernelMethod::Gaussian(3.0)).transform(x.view());
+                let dm = DiffusionMap::<f64>::params(2).steps(1).transform(&kernel).map_err(es)?;
+                Ok(format!("{}|{}", a2(dm.embedding()), a1(dm.eigvals())))
+            });
+            part(&mut out, "fast_ica", || {
+                let xi = x.slice(ndarray::s![.., ..4]).to_owned();
+                let ica = FastIca::<f64>::params().ncomponents(2).gfunc(GFunc::Logcosh(1.0)).max_iter(60).random_state(seed as usize).fit(&DatasetBase::from(xi.clone())).map_err(es)?;
+                Ok(format!("{}|{}", jcanon(&ica), a2(&ica.predict(&xi))))
+            });
             Ok(out)
         });
         v.push(Scn { fam: "decomposition", name: format!("decomposition/{}", i), tags: vec!["decomposition".into()], desc, nontrivial: true, f });
     }
+}
+
+// ---------------------------------------------------------------- text corpora
+/// ASCII words of at least two word characters (shorter runs are dropped by the default tokeniser)
+const TWORDS: [&str; 14] = ["aa", "bb", "cc", "dd", "ee", "ff", "gg", "hh", "ab", "ba", "zz", "a1", "b_2", "mm"];
+const TSEPS: [&str; 7] = [" ", " ", ", ", " - ", ". ", "  ", " x "];
+
+fn spell(r: &mut Sm64, w: &str) -> String {
+    match r.below(5) { 0 => w.to_uppercase(), 1 => { let mut c = w.chars(); let f = c.next().unwrap(); f.to_uppercase().chain(c).collect() }, _ => w.to_string() }
+}
+fn join_tokens(r: &mut Sm64, toks: &[String]) -> String {
+    let mut s = String::new();
+    for (i, t) in toks.iter().enumerate() {
+        if i > 0 { let sep: &str = *r.pick(&TSEPS[..]); s.push_str(sep); }
+        s.push_str(t);
+    }
+    s
+}
+/// a corpus whose document frequencies come in groups of equal value, and a `max_features` value that falls
+/// strictly inside such a group: the cut has to choose among words of equal document frequency
+fn tie_corpus(r: &mut Sm64) -> (Vec<String>, usize) {
+    let nd = 3 + r.below(4) as usize;
+    let g = 2 + r.below(2) as usize;
+    let w = (g * (2 + r.below(3) as usize)).min(TWORDS.len());
+    let mut pool: Vec<&str> = TWORDS.to_vec();
+    r.shuffle(&mut pool);
+    let df = |i: usize| nd.saturating_sub(i / g).max(1);
+    let mut docs = vec![];
+    for j in 0..nd {
+        let mut toks: Vec<String> = vec![];
+        for (i, wd) in pool[..w].iter().enumerate() {
+            if j < df(i) { for _ in 0..(1 + r.below(2)) { toks.push(spell(r, wd)); } }
+        }
+        r.shuffle(&mut toks);
+        docs.push(join_tokens(r, &toks));
+    }
+    let grp = r.below((w / g) as u64) as usize;
+    let cap = grp * g + 1 + r.below(g as u64 - 1) as usize;
+    (docs, cap)
+}
+fn random_corpus(r: &mut Sm64) -> Vec<String> {
+    let nw = 3 + r.below(8) as usize;
+    let nd = 2 + r.below(6) as usize;
+    (0..nd).map(|_| { let toks: Vec<String> = (0..(1 + r.below(8))).map(|_| { let w = TWORDS[r.below(nw as u64) as usize]; spell(r, w) }).collect(); join_tokens(r, &toks) }).collect()
 }
 
 fn preprocessing_scenarios(r: &mut Sm64, thorough: bool, v: &mut Vec<Scn>) {
@@ -638,6 +783,36 @@ fn preprocessing_scenarios(r: &mut Sm64, thorough: bool, v: &mut Vec<Scn>) {
         });
         v.push(Scn { fam: "text", name: format!("text/{}", i), tags: vec!["text".into()], desc, nontrivial: true, f });
     }
+    // max_features set and a document-frequency tie straddling the cut, for the count and the tf-idf vectoriser
+    for i in 0..(if thorough { 40 } else { 14 }) {
+        let (docs, cap) = tie_corpus(r);
+        let ngram = if i % 4 == 3 { 2 } else { 1 };
+        let extra = random_corpus(r);
+        let desc = format!("{{\"estimator\": \"CountVectorizer/TfIdfVectorizer\", \"documents\": {:?}, \"max_features\": {}, \"n_gram_range\": [1, {}], \"also_transformed\": {:?}}}", docs, cap, ngram, extra);
+        let f: Run = Box::new(move || {
+            let da = Array1::from(docs.clone());
+            let mut te = docs.clone();
+            te.extend(extra.iter().cloned());
+            let ta = Array1::from(te);
+            let mut out = vec![];
+            part(&mut out, "count_vectorizer", || {
+                let cv = CountVectorizer::params().n_gram_range(1, ngram).max_features(Some(cap)).fit(&da).map_err(es)?;
+                let m = cv.transform(&ta).map_err(es)?.to_dense();
+                let mut by_word: BTreeMap<String, Vec<usize>> = BTreeMap::new();
+                for (j, w) in cv.vocabulary().iter().enumerate() { by_word.insert(w.clone(), m.column(j).to_vec()); }
+                Ok(format!("{}|{:?}", cv.nentries(), by_word))
+            });
+            part(&mut out, "tfidf", || {
+                let tv = TfIdfVectorizer::default().n_gram_range(1, ngram).max_features(Some(cap)).fit(&da).map_err(es)?;
+                let tm = tv.transform(&ta).map_err(es)?.to_dense();
+                let mut tby: BTreeMap<String, String> = BTreeMap::new();
+                for (j, w) in tv.vocabulary().iter().enumerate() { tby.insert(w.clone(), bits(tm.column(j).iter())); }
+                Ok(format!("{}|{:?}", tv.nentries(), tby))
+            });
+            Ok(out)
+        });
+        v.push(Scn { fam: "text", name: format!("text/tie/{}", i), tags: vec!["text".into(), "max_features".into(), "df_tie_straddles_cut".into()], desc, nontrivial: true, f });
+    }
 }
 
 fn dataset_scenarios(r: &mut Sm64, thorough: bool, v: &mut Vec<Scn>) {
@@ -660,6 +835,17 @@ fn dataset_scenarios(r: &mut Sm64, thorough: bool, v: &mut Vec<Scn>) {
             out.push(c("shuffle", format!("{}|{}", a2(sh.records()), us(sh.targets().iter()))));
             let bs = ds.bootstrap_samples(n, &mut rng).next().unwrap();
             out.push(c("bootstrap", format!("{}|{}", a2(bs.records()), us(bs.targets().iter()))));
+            // the seeded sampling helpers: consecutive draws of one generator, sample + feature sub-sampling, SmallRng
+            let mut rng2 = Xoshiro256Plus::seed_from_u64(seed + 7);
+            let three: Vec<String> = ds.bootstrap_samples(n / 2 + 1, &mut rng2).take(3).map(|b| format!("{}|{}", a2(b.records()), us(b.targets().iter()))).collect();
+            out.push(c("bootstrap_samples_x3", three.join("/")));
+            let bf = ds.bootstrap_features(3, &mut rng2).next().unwrap();
+            out.push(c("bootstrap_features", format!("{}|{}", a2(bf.records()), us(bf.targets().iter()))));
+            let bb = ds.bootstrap((n / 3 + 1, 2), &mut rng2).nth(1).unwrap();
+            out.push(c("bootstrap_both", format!("{}|{}", a2(bb.records()), us(bb.targets().iter()))));
+            let mut small = rand::rngs::SmallRng::seed_from_u64(seed);
+            let sh2 = ds.shuffle(&mut small).shuffle(&mut small);
+            out.push(c("shuffle_twice_smallrng", format!("{}|{}", a2(sh2.records()), us(sh2.targets().iter()))));
             let fr: BTreeMap<usize, u32> = ds.label_frequencies().into_iter().map(|(k, v)| (k, v.to_bits())).collect();
             out.push(c("label_frequencies", format!("{:?}", fr)));
             let mut l = ds.labels();
@@ -929,6 +1115,14 @@ fn main() {
             _ => {}
         }
         out.rust_eval(&s.desc, key);
+        if let Ok(cs) = &all[id][0].res {
+            for (k, _, t) in cs {
+                if t.starts_with("PANIC: ") || t.starts_with("ERROR: ") {
+                    out.bump("component_failed");
+                    if t.starts_with("PANIC: ") { eprintln!("note: component '{}' of scenario {} ends in a panic (compared like any other result): {}", k, s.name, t); }
+                }
+            }
+        }
         if let Some((code, what)) = compare(&all[id]) {
             out.rust_fail(id as u64, code, &tagrefs, &format!("{}: {}", s.name, what), &s.desc);
         }
@@ -1143,6 +1337,82 @@ fn main() {
             out.case(id, &coq, &["coq_seed"], &d2, Some(fnv(d2.as_bytes())));
         }
     }
+    // (7) count vectoriser: the `vocabulary()` orders and transformed rows of repeated fits (fresh hash states),
+    //     replayed through the enumeration-parametrised model of C20/VocabModel.v
+    {
+        use linfa_preprocessing::CountVectorizer;
+        let cstrs = |xs: &[String]| clist(xs, |w| cstr(w));
+        for k in 0..(if thorough { 160 } else { 48 }) {
+            id += 1;
+            let nmax = if k % 4 == 3 { 2 } else { 1 };
+            let (train, cap): (Vec<String>, Option<usize>) = if k % 2 == 0 {
+                let (d, cp) = tie_corpus(&mut r);
+                (d, Some(cp))
+            } else {
+                let d = random_corpus(&mut r);
+                let cp = if r.chance(0.5) { Some(1 + r.below(6) as usize) } else { None };
+                (d, cp)
+            };
+            let (mindf, maxdf): (f32, f32) = if k % 5 == 4 { *r.pick(&[(0.3f32, 1.0f32), (0.0, 0.8), (0.25, 0.75), (0.5, 0.5)]) } else { (0.0, 1.0) };
+            let stop: Option<Vec<String>> = if k % 7 == 5 { Some(vec![r.pick(&TWORDS).to_string(), r.pick(&TWORDS).to_string()]) } else { None };
+            let mut test: Vec<String> = train.iter().take(2).cloned().collect();
+            test.extend(random_corpus(&mut r).into_iter().take(3));
+            if !out.wanted(id) { continue; }
+            let (da, ta) = (Array1::from(train.clone()), Array1::from(test.clone()));
+            let build = |cap: Option<usize>| {
+                let p = CountVectorizer::params().n_gram_range(1, nmax).max_features(cap).document_frequency(mindf, maxdf);
+                match &stop { Some(sw) => p.stopwords(sw), None => p }
+            };
+            let mut fits: Vec<(Vec<String>, Vec<Vec<usize>>)> = vec![];
+            let mut failed = false;
+            for _ in 0..5 {
+                let (p, da2, ta2) = (build(cap), da.clone(), ta.clone());
+                match guarded(std::panic::AssertUnwindSafe(move || -> Result<(Vec<String>, Vec<Vec<usize>>), String> {
+                    let cv = p.fit(&da2).map_err(es)?;
+                    let m = cv.transform(&ta2).map_err(es)?.to_dense();
+                    Ok((cv.vocabulary().clone(), m.rows().into_iter().map(|r| r.to_vec()).collect()))
+                })) {
+                    Ok(Ok(f)) => fits.push(f),
+                    _ => { failed = true; }
+                }
+            }
+            if failed || fits.is_empty() { out.bump("vocab_fit_failed"); continue; }
+            // does the cut fall between two entries of equal document frequency ? (uncapped fit, frequencies from the training counts)
+            let straddles = match cap {
+                None => false,
+                Some(cp) => {
+                    let p = build(None);
+                    match guarded(std::panic::AssertUnwindSafe(|| p.fit(&da).ok().and_then(|cv| cv.transform(&da).ok().map(|m| m.to_dense())))) {
+                        Ok(Some(m)) => {
+                            let mut dfs: Vec<usize> = m.columns().into_iter().map(|col| col.iter().filter(|x| **x > 0).count()).collect();
+                            dfs.sort_unstable_by(|a, b| b.cmp(a));
+                            cp >= 1 && cp < dfs.len() && dfs[cp - 1] == dfs[cp]
+                        }
+                        _ => false,
+                    }
+                }
+            };
+            let orders = fits.iter().map(|f| &f.0).collect::<BTreeSet<_>>().len();
+            let coq = format!(
+                "CVocab {} {} {} ({})%Z ({})%Z {} {} {} {}",
+                cn(id), cn(nmax as u64), cap.map_or("None".to_string(), |cp| format!("(Some {})", cn(cp as u64))), cbits32(mindf), cbits32(maxdf),
+                stop.as_ref().map_or("None".to_string(), |sw| format!("(Some {})", cstrs(sw))), cstrs(&train), cstrs(&test),
+                clist(&fits, |f| format!("({}, {})", cstrs(&f.0), clist(&f.1, |row: &Vec<usize>| cvecn(row))))
+            );
+            out.bump(if orders > 1 { "vocab_orders_differ" } else { "vocab_orders_equal" });
+            out.bump(if straddles { "vocab_df_tie_straddles_cut" } else if cap.is_some() { "vocab_cut_without_tie" } else { "vocab_no_cut" });
+            if (mindf, maxdf) != (0.0, 1.0) { out.bump("vocab_df_window"); }
+            if stop.is_some() { out.bump("vocab_stopwords"); }
+            let d2 = format!(
+                "{{\"case\": \"CountVectorizer fitted 5 times, vocabulary() order and transform(test) per fit\", \"train\": {:?}, \"test\": {:?}, \"n_gram_range\": [1, {}], \"max_features\": {}, \"document_frequency\": [{}, {}], \"stopwords\": {}, \"distinct_vocabulary_orders\": {}, \"df_tie_straddles_cut\": {}, \"vocabularies\": {:?}}}",
+                train, test, nmax, jopt(&cap), mindf, maxdf, stop.as_ref().map_or("null".to_string(), |sw| format!("{:?}", sw)), orders, straddles, fits.iter().map(|f| &f.0).collect::<Vec<_>>()
+            );
+            let mut tags = vec!["coq_vocab"];
+            if cap.is_some() { tags.push("max_features"); }
+            if straddles { tags.push("df_tie_straddles_cut"); }
+            out.case(id, &coq, &tags, &d2, if orders > 1 { Some(fnv(d2.as_bytes())) } else { None });
+        }
+    }
     out.bump_by("child_processes", child_out.len() as u64);
-    out.finish("scenario = estimator x generated dataset x parameters (tree / naive Bayes / hierarchical inputs are tie-heavy: duplicated rows with conflicting labels, identical classes, lattice distances); every scenario is run twice on the global pool, on pools of 1/2/5/16 threads (thorough: 1,2,3,5,7,11,16) and in fresh processes with RAYON_NUM_THREADS in {1,2,3,5,8,16} (thorough: 1..16); all learned quantities and predictions are compared bit for bit; Coq cases: observed hash-map entry lists and k-means task schedules; a case is non-trivial when it has ties / several threads / a permuted schedule; distinct = distinct scenario descriptions");
+    out.finish("scenario = estimator x generated dataset x parameters (tree / naive Bayes / hierarchical inputs are tie-heavy: duplicated rows with conflicting labels, identical classes, lattice distances); every scenario is run twice on the global pool, on pools of 1/2/5/16 threads (thorough: 1,2,3,5,7,11,16) and in fresh processes with RAYON_NUM_THREADS in {1,2,3,5,8,16} (thorough: 1..16); all learned quantities and predictions are compared bit for bit; Coq cases: observed hash-map entry lists, k-means task schedules and the vocabulary orders / transformed rows of repeated count-vectoriser fits; a case is non-trivial when it has ties / several threads / a permuted schedule; distinct = distinct scenario descriptions");
 }
